@@ -125,7 +125,10 @@ pub fn gen_stat_msg(rng: &mut Rng, tc: &TreeCtx, uniq: &mut u32, shadow: &ModelS
             3 | 4 | 5 => {
                 let c = *rng.pick(&[RegCmd::Enable, RegCmd::Ptr, RegCmd::Ntr]);
                 let v = gen_u16_value(rng);
-                contrib_unit(rng, tc, Contrib::StatReg(reg, c), false, vec![v], &level, i == 0)
+                // now and then with a surplus parameter: the unit is refused with -108 (whether
+                // the addressed register was written first is open) - no OTHER register may change
+                let ps = if rng.chance(1, 12) { vec![v, gen_u16_value(rng)] } else { vec![v] };
+                contrib_unit(rng, tc, Contrib::StatReg(reg, c), false, ps, &level, i == 0)
             }
             6 | 7 => {
                 let c = *rng.pick(&[RegCmd::Enable, RegCmd::Ptr, RegCmd::Ntr]);
@@ -215,6 +218,7 @@ impl Prop for C15 {
             "cls_with_pending_event",
             "set_condition_bits_partial_overlap",
             "clear_condition_bits",
+            "register_write_refused_for_surplus_parameter",
         ];
         v.into_iter().map(String::from).collect()
     }
@@ -424,6 +428,9 @@ impl StepHandler for H15 {
             }
         }
         let mut ctx = String::from("message");
+        if s.msg.units.iter().zip(0..).any(|(u, ui)| u.params.len() >= 2 && pred.executed.iter().any(|(x, c, q)| *x == ui && !*q && matches!(c, Contrib::StatReg(..)))) {
+            stats.probe("register_write_refused_for_surplus_parameter");
+        }
         for (_, c, q) in &pred.executed {
             match c {
                 Contrib::StatPreset => {
